@@ -77,7 +77,7 @@ func TestVFC05QueryLogPrograms(t *testing.T) {
 
 				return &Client{Name: "c-" + ids[0]}, nil
 			},
-			BaseDir:    dir, RotationIvl: timeutil.Day, MemSize: p.MemSize, Enabled: true, FileEnabled: true,
+			BaseDir: dir, RotationIvl: timeutil.Day, MemSize: p.MemSize, Enabled: true, FileEnabled: true,
 			AnonymizeClientIP: p.Anonymse,
 		})
 		if err != nil {
